@@ -46,6 +46,7 @@ def run(rep, idx, tier):
     from . import glue as _glue
     _glue.reset_discipline(rep, "C15.5", idx, ["WishboneSRAM"])
     _glue.iterable_handover(rep, "C15.5", idx, "WishboneSRAM.__init__", "init", "MemoryData", "init")
+    _glue.write_once_handles(rep, "C15.5", idx, "WishboneSRAM")
     c = get_ctx(idx, "WishboneSRAM.elaborate")
     ctor = get_ctor(idx, "WishboneSRAM")
     rep.analysed(c.fi.site, ctor.fi.site)
